@@ -58,12 +58,25 @@ fn authority_strategy() -> BoxedStrategy<(String, String)> {
             format!("[{}]:{}", std::net::Ipv6Addr::from(a), p),
         )
     });
+    // a colon, or brackets, but no usable port: still "a CONNECT without a port" (":+80" is not in
+    // the list: the http crate reads it as port 80, a lenient spelling of a port, not a missing one)
+    let malformed = prop_oneof![
+        any::<[u16; 8]>().prop_map(|a| format!("[{}]", std::net::Ipv6Addr::from(a))),
+        ("[a-z]{1,8}\\.[a-z]{2,4}", 65_536u32..1_000_000).prop_map(|(h, p)| format!("{}:{}", h, p)),
+        "[a-z]{1,8}\\.[a-z]{2,4}".prop_map(|h| format!("{}:", h)),
+        ("[a-z]{1,8}\\.[a-z]{2,4}", prop::sample::select(vec!["8o", "-1", "0x50", " 80", "80 ", "http"])).prop_map(|(h, p)| format!("{}:{}", h, p)),
+        "[a-z]{1,8}\\.[a-z]{2,4}".prop_map(|h| format!("user:pw@{}", h)),
+        any::<[u8; 4]>().prop_map(|a| format!("{}.{}.{}.{}:", a[0], a[1], a[2], a[3])),
+        any::<[u16; 8]>().prop_map(|a| format!("[{}]:", std::net::Ipv6Addr::from(a))),
+    ]
+    .prop_map(|s| ("malformed-port".to_string(), s));
     prop_oneof![
         4 => reserved,
         3 => lookalike_port,
         2 => lookalike_noport,
         4 => host_port,
         1 => host_noport,
+        2 => malformed,
         2 => v4,
         2 => v6,
     ]
@@ -103,6 +116,8 @@ struct Expected {
     host_header: bool,
     egress: Egress,
     status_dont_care: bool,
+    /// any refusal will do (a status that is not 2xx, a reset stream, a closed connection)
+    refusal_any: bool,
 }
 
 const ESTABLISHMENT_MS: u64 = 30_000;
@@ -123,7 +138,12 @@ fn expected(c: &Case) -> Expected {
         host_header: false,
         egress: Egress::None,
         status_dont_care: false,
+        refusal_any: false,
     };
+    if c.kind == "malformed-port" && c.method == "CONNECT" {
+        // where the refusal comes from (codec, client library, tunnel) is not specified
+        return Expected { refusal_any: true, ..none(502, None) };
+    }
     if !c.creds_valid {
         return none(407, None);
     }
@@ -148,6 +168,7 @@ fn expected(c: &Case) -> Expected {
                 host_header: false,
                 egress: Egress::Udp,
                 status_dont_care: c.mux_fails,
+                refusal_any: false,
             },
             _ => Expected {
                 status: 200,
@@ -155,6 +176,7 @@ fn expected(c: &Case) -> Expected {
                 host_header: false,
                 egress: Egress::Icmp,
                 status_dont_care: c.mux_fails,
+                refusal_any: false,
             },
         };
     }
@@ -178,6 +200,7 @@ fn expected(c: &Case) -> Expected {
         host_header,
         egress: Egress::Tcp(dest),
         status_dont_care: false,
+        refusal_any: false,
     }
 }
 
@@ -254,6 +277,16 @@ pub fn judge(c: &Case, obs: &Obs, events: &[Event]) -> Verdict {
             udp,
             icmp
         ),
+    }
+    if exp.refusal_any {
+        ensure!(
+            !obs.status.is_some_and(|s| (200..300).contains(&s)),
+            "status:portless-connect-accepted",
+            "{}: a CONNECT whose authority has no usable port was answered {:?}",
+            what,
+            obs.status
+        );
+        return Ok(());
     }
     ensure!(
         obs.error.is_none() || obs.status.is_some(),
@@ -451,7 +484,7 @@ impl Suite for ResponseSuite {
         "final-response"
     }
     fn rule(&self) -> String {
-        "method x authority (reserved names, look-alikes differing by case/suffix with and without port, host:port, host without port, IPv4/IPv6 literals) x credentials valid/invalid x scripted outcome of the outbound attempt (success, refused, unreachable, timed out, never completes, policy refusal loopback/non-routable, resolver failure, EMFILE, other, delayed success) x outcome of the forwarder's authentication step for _udp2 / _icmp (passes, credentials rejected, I/O error, timed out, unreachable) x {HTTP/1.1, HTTP/2} served in memory by the real Tunnel + HttpDownstream + codecs under a paused clock; oracle = table from PROTOCOL.md and the property statement (status, X-Warning code, offending host, exactly one response, forwarder calls, time of the response); non-trivial = failure outcome or reserved/look-alike authority".into()
+        "method x authority (reserved names, look-alikes differing by case/suffix with and without port, host:port, host without port, authorities with a colon or brackets but no usable port - [v6], host:99999, host:, host:8o, user:pw@host -, IPv4/IPv6 literals) x credentials valid/invalid x scripted outcome of the outbound attempt (success, refused, unreachable, timed out, never completes, policy refusal loopback/non-routable, resolver failure, EMFILE, other, delayed success) x outcome of the forwarder's authentication step for _udp2 / _icmp (passes, credentials rejected, I/O error, timed out, unreachable) x {HTTP/1.1, HTTP/2} served in memory by the real Tunnel + HttpDownstream + codecs under a paused clock; oracle = table from PROTOCOL.md and the property statement (status, X-Warning code, offending host, exactly one response, forwarder calls, time of the response); non-trivial = failure outcome or reserved/look-alike authority".into()
     }
     fn strategy(&self, _: Tier) -> BoxedStrategy<Case> {
         (
@@ -491,6 +524,9 @@ impl Suite for ResponseSuite {
         if c.kind.starts_with("lookalike") {
             v.push("lookalike");
         }
+        if c.kind == "malformed-port" {
+            v.push("colon-or-brackets-but-no-usable-port");
+        }
         if failure {
             v.push("failure-outcome");
         }
@@ -501,13 +537,13 @@ impl Suite for ResponseSuite {
             v.push("multiplexer-authentication-fails");
         }
         v.push(if c.h2 { "h2" } else { "h1" });
-        if failure || c.kind == "reserved" || c.kind.starts_with("lookalike") {
+        if failure || c.kind == "reserved" || c.kind.starts_with("lookalike") || c.kind == "malformed-port" {
             v.push("nontrivial");
         }
         v
     }
     fn required_classes(&self) -> Vec<&'static str> {
-        vec!["nontrivial", "reserved", "lookalike", "failure-outcome", "h1", "h2", "multiplexer-authentication-fails"]
+        vec!["nontrivial", "reserved", "lookalike", "failure-outcome", "h1", "h2", "multiplexer-authentication-fails", "colon-or-brackets-but-no-usable-port"]
     }
     fn check(&self, c: &Case) -> Verdict {
         let (obs, events) = execute(c);
